@@ -74,6 +74,8 @@ BROKEN = {
     "MCV_sdm_nocharset": "Sdm/ContentType/Charset",
 }
 BROKEN_QUICK = list(BROKEN)[:6]
+# the internal laws are not vacuous either: cfg -> the law a broken variant must violate (thorough tier)
+LAW_BROKEN = {"MCL_presence": "LawPresence", "MCL_lifecycle": "LawLifecycle", "MCL_star": "LawStarDenotesName", "MCL_roundtrip": "LawRoundTrip"}
 SMALL = "MCS_small"          # the universes the broken variants run on, without a defect: must pass
 _CLAUSE_RE = re.compile(r'<<"clause", "([^"]+)"')
 
@@ -158,7 +160,7 @@ def canaries(ctx: Ctx, root):
     good = sf.run_case({"kind": "pathlike", "file": "naïve café.txt", "att": True, "ma_mode": "call", "ma": 60}, root)
     good304 = sf.run_case({"kind": "path", "file": "a.txt", "rq": "inm_match"}, root)
     if good["exc"] or good["status"] != 200 or good304["status"] != 304:
-        return None
+        return {"skipped": "the base calls do not answer 200 / 304 on this tree"}
     out = []
 
     def corrupt(base, clause, **changes):
@@ -177,7 +179,7 @@ def canaries(ctx: Ctx, root):
     corrupt(good304, "FileClosed/On304", open_end=1)
     corrupt(good304, "Sound304", inm=sf.cps('"other"'))
     lines = []
-    for t, (_, ln) in enumerate(out):
+    for t, ln in enumerate([good, good304] + [x for _, x in out]):
         ln = dict(ln)
         ln["t"], ln["i"] = t, 0
         lines.append(ln)
@@ -185,8 +187,10 @@ def canaries(ctx: Ctx, root):
     rej = {r["t"]: r["clause"] for r in ctx.judge(AREA, JUDGE, lines, batch=1500)}
     ctx.traces = before[0]                      # canaries are not evidence about the code
     del ctx.model_drift[before[1]:]
+    if 0 in rej or 1 in rej:                    # the uncorrupted lines are rejected themselves: reported by the drivers, nothing to show here
+        return {"skipped": "the base lines are rejected on this tree"}
     res = {}
-    for t, (clause, _) in enumerate(out):
+    for t, (clause, _) in enumerate(out, start=2):
         res[clause] = rej.get(t)
         if rej.get(t) != clause:
             raise MachineryError(f"corrupted recorded field not rejected as {clause!r} (got {rej.get(t)!r}): the judge may be vacuous")
@@ -288,6 +292,7 @@ def _run(ctx: Ctx, root, models, broken, nw, seen, pool):
         f_models = [ex.submit(_tlc_job, ctx, c, nw, False) for c in models]
         f_broken = [ex.submit(_tlc_job, ctx, c, 1, True) for c in broken]
         f_small = ex.submit(_tlc_job, ctx, SMALL, 1, False)
+        f_laws = [] if q else [ex.submit(_tlc_job, ctx, c, 1, True) for c in LAW_BROKEN]
         # 3. code -> spec
         cases = code_to_spec_cases(ctx)
         lines = record(ctx, cases, root, pool)
@@ -320,6 +325,11 @@ def _run(ctx: Ctx, root, models, broken, nw, seen, pool):
         ctx.transitions += r.generated
         ctx.model_runs.append({"spec": f"{AREA}/{MC}", "cfg": cfg, "distinct": r.distinct, "generated": r.generated, "depth": r.depth,
                                "wall_s": round(r.wall_s, 1)})
+        for f in f_laws:
+            cfg, r = f.result()
+            ctx.notes.setdefault("broken_models_rejected", {})[cfg] = r.invariant_violated
+            if r.invariant_violated != LAW_BROKEN[cfg]:
+                raise MachineryError(f"{MC}/{cfg}: the deliberately wrong model does not violate {LAW_BROKEN[cfg]} (got {r.invariant_violated!r})")
         for f in f_broken:
             cfg, r = f.result()
             m = _CLAUSE_RE.search(r.stdout)
